@@ -711,6 +711,14 @@ def rules_solve_update(oa):
         for x in extra:
             oa.add("C03-d/update-loop-extra@%d" % x.lineno, "C03-d-solve-and-update", False,
                    "the update loop does more than update the pose: `%s`" % unp(x)[:80], x)
+        # in-place methods applied to a pose inside the update loop (normalize(), fill(), ...), at any nesting depth
+        from .effects import MUTATOR_METHODS
+        for x in ast.walk(loop):
+            if isinstance(x, ast.Expr) and isinstance(x.value, ast.Call) and isinstance(x.value.func, ast.Attribute) and \
+                    x.value.func.attr in MUTATOR_METHODS and \
+                    any(isinstance(y, ast.Attribute) and y.attr == "pose" for y in ast.walk(x.value.func.value)):
+                oa.add("C03-d/update-loop-extra@%d" % x.lineno, "C03-d-solve-and-update", False,
+                       "the update loop modifies a pose in place besides the boxplus update: `%s`" % unp(x)[:80], x)
     # the update uses the dx of *this* iteration: the solve dominates the sweep and no sweep separates them
     dom = cfg.dominators()
     for sw in oa.sweep_nodes:
